@@ -24,7 +24,7 @@ RULE = ("tables of 0-60 rows x 1-6 columns (and of 8 192 - 70 000 rows x 1-3 col
         "value) and int64; missing value in {absent, 0, -9999, only in other columns, everywhere}; Float / Integer / default type; blank "
         "lines; LF / CRLF; write cases with 1-4 results in any type order; distinct by (case kind, dtype request, missing class, ncols, "
         "has-blank-lines, eol, header class)")
-REQUIRED_COUNTERS = ["tool_started_in_the_directory_of_the_file", "tables_through_the_command_line_tool", "columns_read_and_compared", "mask_checks", "other_column_independence_checks", "error_line_checks", "files_written_and_parsed", "read_after_write_checks", "same_path_rereads", "ragged_other_column_checks", "large_files_read", "reruns_after_the_file_was_repaired"]
+REQUIRED_COUNTERS = ["tables_updated_in_place", "tool_started_in_the_directory_of_the_file", "tables_through_the_command_line_tool", "columns_read_and_compared", "mask_checks", "other_column_independence_checks", "error_line_checks", "files_written_and_parsed", "read_after_write_checks", "same_path_rereads", "ragged_other_column_checks", "large_files_read", "reruns_after_the_file_was_repaired"]
 ASSUMPTIONS = ["don't-care: textual form of missing cells in written files, fractional cells read as Integer, NaN/inf, rows too short to hold the requested column, rank != 1 on write",
                "integers are generated within +-2^53 (cells are parsed through float())"]
 
@@ -32,7 +32,8 @@ DOUBLES = [0.0, -0.0, 1.0, -1.0, 0.1, 1 / 3.0, 5e-324, -5e-324, 2.22507385850720
            0.30000000000000004, 1e22, 1e-7, 9007199254740992.0, 9007199254740993.0, 3.141592653589793, 2.5, -9998.999999999998, -9999.000000000002, -9999.05,
            -9999.0000001, 1e-300, 3e-9, -3e-9, 1e-12, 99.00000000000001, 98.99999999999999]
 HEADERS = ["A", "B", "Elev", "my col", "a,b", 'say "hi"', "é_ü", " lead", "x:y", "#c", "日本", "Value (m)", "a;b", "'q'", "two\nlines", "twolines", "ff\x0cx", "ffx",
-           "ls\u2028sep", "nel\x85x", "soil{0}", "{id}", "a}b", "{{x}}", "100%", "%s", "$col", "a{b"]
+           "ls\u2028sep", "nel\x85x", "soil{0}", "{id}", "a}b", "{{x}}", "100%", "%s", "$col", "a{b",
+           "e\u0301te\u0301", "\u212b", "R (\u2126)", "\ufb01eld", "A\u030a"]      # names that are not in composed normal form
 
 
 def bits(x):
@@ -455,6 +456,47 @@ def run_write(ctx, case):
         want = prog.commands[names[k]]._result
         if arr.digest(o.value) != arr.digest(want) and not (c["integer"] and numpy.array_equal(numpy.ma.getdata(o.value), numpy.ma.getdata(want))):
             ctx.fail("roundtrip:not-identical:%s" % mixed, {"column": k, "got": arr.describe(o.value, 8), "want": arr.describe(want, 8)})
+            return
+    if case["rseed"] % 5 == 1 and t["nrows"]:
+        # a table updated in place: its columns are read and written back to the very same file by a model that lists the
+        # writer first (the writer's inputs are evaluated before its file is touched)
+        from mpilot.program import Program
+        d3 = ctx.scratch()
+        cols3 = [t["cols"][ci] for ci in dict.fromkeys(order)]
+        with open(os.path.join(d3, "table.csv"), "w") as f:
+            f.write(",".join("c%d" % k for k in range(len(cols3))) + "\n")
+            for r in range(t["nrows"]):
+                f.write(",".join(repr(c["data"][r]) for c in cols3) + "\n")
+        lines3 = ['Out = EEMSWrite(OutFileName = "table.csv", OutFieldNames = [%s])' % ", ".join("R%d" % k for k in reversed(range(len(cols3))))]
+        lines3 += ['R%d = EEMSRead(InFileName = "table.csv", InFieldName = c%d, DataType = %s)' % (k, k, "Integer" if c["integer"] else "Float") for k, c in enumerate(cols3)]
+        ctx.count("tables_updated_in_place")
+        try:
+            Program.from_source("\n".join(lines3), working_dir=d3).run()
+        except Exception as e:
+            ctx.fail("update-in-place:raises-%s" % type(e).__name__, {"error": str(e)[:200], "text": "\n".join(lines3)[:400]})
+            return
+        with open(os.path.join(d3, "table.csv"), newline="", encoding="utf-8") as f:
+            rows3 = [r for r in csv.reader(f) if r]
+        okrows = len(rows3) == t["nrows"] + 1 and rows3[0] == ["R%d" % k for k in reversed(range(len(cols3)))]
+        if okrows:
+            for r, row in enumerate(rows3[1:]):
+                for j, k in enumerate(reversed(range(len(cols3)))):
+                    try:
+                        if bits(float(row[j])) != bits(cols3[k]["data"][r]):
+                            okrows = False
+                    except (ValueError, IndexError):
+                        okrows = False
+        if not okrows:
+            ctx.fail("update-in-place:table-not-rewritten-with-its-own-columns", {"rows": rows3[:3], "want_rows": t["nrows"]})
+            return
+        # a write that is refused (fields of different lengths) leaves the file that is already there alone
+        prog4 = arr.new_program(working_dir=d3)
+        arr.standin(prog4, "P", numpy.ma.array([1.0, 2.0, 3.0]))
+        arr.standin(prog4, "Q", numpy.ma.array([1.0, 2.0]))
+        before = open(os.path.join(d3, "table.csv"), "rb").read()
+        w4 = arr.invoke(prog4, "EEMSWrite", "W", {"OutFileName": "table.csv", "OutFieldNames": ["P", "Q"]})
+        if not w4.ok and open(os.path.join(d3, "table.csv"), "rb").read() != before:
+            ctx.fail("write:refused-write-alters-the-existing-file", {"error": w4.err, "bytes_before": len(before), "bytes_after": os.path.getsize(os.path.join(d3, "table.csv"))})
             return
     if case["rseed"] % 4 == 0 and t["nrows"]:
         # the same table read and written by a command file run through the command-line tool
